@@ -260,7 +260,13 @@ func checkC12(r *Run) {
 	r.Check(nGo == 1, "close-once", "owner loop has a single start site", owner.Pos(), fmt.Sprintf("%d go statements start the owner loop", nGo))
 
 	// (5) write failure path
-	for _, w := range findCalls(owner, "invoke p9p.Channel.WriteFcall") {
+	var ownerWrites []*ssa.Call
+	for _, f := range p.withHelpers(owner, 1) {
+		ownerWrites = append(ownerWrites, findCalls(f, "invoke p9p.Channel.WriteFcall")...)
+	}
+	r.Floor("write-failure", len(ownerWrites), 1, "request writes in the owner loop")
+	for _, w := range ownerWrites {
+		owner := w.Parent()
 		e := errResult(w)
 		if e == nil {
 			r.Bad("write-failure", "handle: WriteFcall error examined", w.Pos(), "request write errors are ignored: the caller waits for a reply that never comes")
@@ -282,6 +288,20 @@ func checkC12(r *Run) {
 		})
 		r.Check(okDel, "write-failure", "handle: failed request write frees the tag", w.Pos(), "the tag of a request that was never sent stays outstanding for ever")
 		r.Check(okSend, "write-failure", "handle: failed request write is reported to the caller", w.Pos(), "the caller of a request that could not be written is never told")
+		// a failed write (the request's own context may simply have ended: WriteFcall(req.ctx, …) returns ctx.Err()
+		// before touching the wire) concerns that one call: the owner loop must go on serving the others
+		if owner.Parent() == nil && len(findCalls(owner, "invoke p9p.Channel.WriteFcall")) > 0 {
+			okGoOn := true
+			var where ssa.Instruction = w
+			for _, ret := range returnsOf(owner) {
+				if knownNonNilAt(e, ret) && isOwnerLoop(owner) {
+					okGoOn = false
+					where = ret
+				}
+			}
+			r.Check(okGoOn, "write-failure", "handle: a failed request write does not end the owner loop", where.Pos(),
+				"the owner loop returns on a request-write error: one call whose context has ended shuts the whole session down for every other caller")
+		}
 	}
 
 	// (4) assertions in the client + panic reach
@@ -420,4 +440,21 @@ func reachAvoiding(a, b, avoid *ssa.BasicBlock) bool {
 		return false
 	}
 	return walk(a)
+}
+
+// isOwnerLoop: fn is the transport's owner loop itself (it closes transport.closed on exit), not a helper of it.
+func isOwnerLoop(fn *ssa.Function) bool {
+	ok := false
+	eachInstr(fn, func(in ssa.Instruction) {
+		if d, isD := in.(*ssa.Defer); isD {
+			if mc, isMC := d.Call.Value.(*ssa.MakeClosure); isMC {
+				for _, cs := range closeSites(mc.Fn.(*ssa.Function)) {
+					if cs.Prov == "field:transport.closed" {
+						ok = true
+					}
+				}
+			}
+		}
+	})
+	return ok
 }
